@@ -51,14 +51,28 @@ Definition hash_arm (vi : nat) (v : string) (fs : fields) (l : list (field * fat
                                               else [hash_stmt fa (EVar ("_" ^^ dec i))]) (indexed l)))
   end.
 
-Definition hash_sig : toks :=
-  [P "<"; I "H"; P ":"] ++ core_path ["hash"; "Hasher"] ++ [P ">";
-   G Paren [P "&"; I "self"; P ","; I "state"; P ":"; P "&"; I "mut"; I "H"]].
+(** hash/mod.rs hasher_ident: `__H` followed by as many `_` as it takes to differ from every
+    type / const parameter of the type (fuel = number of parameters + 1 suffices) *)
+Definition gparam_tc_name (g : gparam) : option string :=
+  match g with GType n _ _ => Some n | GConst n _ _ => Some n | GLife _ _ => None end.
+Definition name_used (ps : list gparam) (n : string) : bool :=
+  existsb (fun g => match gparam_tc_name g with Some x => String.eqb x n | None => false end) ps.
+Fixpoint fresh_from (fuel : nat) (ps : list gparam) (n : string) : string :=
+  match fuel with
+  | 0 => n
+  | S f => if name_used ps n then fresh_from f ps (n ^^ "_") else n
+  end.
+Definition hasher_ident (g : generics) : string :=
+  fresh_from (S (List.length (g_params g))) (g_params g) "__H".
+
+Definition hash_sig (h : string) : toks :=
+  [P "<"; I h; P ":"] ++ core_path ["hash"; "Hasher"] ++ [P ">";
+   G Paren [P "&"; I "self"; P ","; I "state"; P ":"; P "&"; I "mut"; I h]].
 
 Definition hash_item (d : dinput) (g : generics) (body : block) : item :=
   {| i_attrs := []; i_generics := g; i_trait := Some (core_path ["hash"; "Hash"]);
      i_self := d_name d;
-     i_members := [MFn inline_attr "hash" hash_sig ["self"; "state"] body] |}.
+     i_members := [MFn inline_attr "hash" (hash_sig (hasher_ident (d_generics d))) ["self"; "state"] body] |}.
 
 Definition hash_field_attrs F traits (fs : list field) : outcome (list (field * fattr)) :=
   mapM (fun f => let* fa := hash_field_attr F traits true true (f_attrs f) in Ok (f, fa)) fs.
